@@ -199,7 +199,10 @@ class Runner:
         outs = []
         for loader_cls in (DictLoader, CachingDictLoader):
             for is_async in (False, True):
-                env = self.env_class(limit, suppress)(loader=loader_cls(dict(srcs)))
+                # texts with markup characters mark the auto-escape variants (template text and
+                # block.super are safe, so the page must be the same as without auto-escape)
+                env = self.env_class(limit, suppress)(loader=loader_cls(dict(srcs)),
+                                                      auto_escape=any("<" in v for v in srcs.values()))
                 # a render that does not end is an outcome, not a hang; the timer repeats because an
                 # exception raised inside a GC/weakref callback is swallowed by the interpreter
                 signal.setitimer(signal.ITIMER_REAL, self.timeout, 0.05)
@@ -607,6 +610,38 @@ CORPUS: list[tuple[dict, tuple, int]] = [
 ]
 
 
+def _map_items(items: list, f) -> list:
+    out = []
+    for it in items:
+        it = f(it)
+        if it[0] == "B":
+            it = it[:3] + (_map_items(it[3], f), it[4])
+        elif it[0] == "W":
+            it = it[:2] + (_map_items(it[2], f),)
+        out.append(it)
+    return out
+
+
+def markupify(case: tuple) -> tuple:
+    """The same chain with markup characters in every visible text; the
+    runner turns auto-escape on for it."""
+    def f(it: tuple) -> tuple:
+        return ("T", "<" + it[1] + "&") if it[0] == "T" and it[1].strip() else it
+    return ({k: _map_items(v, f) for k, v in case[0].items()},) + tuple(case[1:])
+
+
+def same_basename(case: tuple) -> tuple:
+    """The same chain with names t, d/t, d/d/t, ...: every Template.name is 't'."""
+    def nm(n: str) -> str:
+        return "d/" * int(n[1:]) + "t" if n.startswith("t") and n[1:].isdigit() else n
+
+    def f(it: tuple) -> tuple:
+        return ("E", nm(it[1])) if it[0] == "E" else it
+    tpls, entry = case[0], case[1]
+    entry2 = ("direct", nm(entry[1])) if entry[0] == "direct" else ("wrap", [(r_, nm(n)) for r_, n in entry[1]])
+    return ({nm(k): _map_items(v, f) for k, v in tpls.items()}, entry2) + tuple(case[2:])
+
+
 def _rq(body: list) -> tuple:
     return ("B", "b", True, body, None)
 
@@ -741,8 +776,8 @@ def main(chk: C.Check, build: C.Build) -> None:
     fam_counts: dict[str, Any] = {}
     #        names, depth, fraction in thorough, fraction in quick
     plan = [(1, 2, 1.0, 0.25), (1, 3, 1.0, 0.25), (1, 4, 1.0, 0.1), (2, 2, 1.0, 0.1),
-            (2, 3, 1.0, 0.016), (3, 2, 1.0, 0.016),
-            (2, 4, 0.006, 0.0003), (3, 3, 0.001, 0.00005), (3, 4, 0.000005, 0.00000025)]
+            (2, 3, 1.0, 0.016), (3, 2, 0.2, 0.016),
+            (2, 4, 0.003, 0.0003), (3, 3, 0.0005, 0.00005), (3, 4, 0.0000025, 0.00000025)]
     for k, d, f_th, f_q in plan:
         shapes = fam_shapes(k)
         total = len(shapes) ** d
@@ -763,7 +798,7 @@ def main(chk: C.Check, build: C.Build) -> None:
         fam_counts[f"names={k},depth={d}"] = {"space": total, "run": n, "complete": p >= 1.0}
     # the blank family: empty / whitespace / silent bodies, nested required blocks, if / for wrappers
     bl_plan = [(1, 2, 1.0, 0.3), (1, 3, 1.0, 0.05), (2, 2, 1.0, 0.03),
-               (1, 4, 0.1, 0.002), (2, 3, 0.002, 0.00006), (3, 2, 0.004, 0.0001)]
+               (1, 4, 0.05, 0.002), (2, 3, 0.001, 0.00006), (3, 2, 0.002, 0.0001)]
     for k, d, f_th, f_q in bl_plan:
         shapes = bl_shapes(k)
         total = len(shapes) ** d
@@ -789,7 +824,20 @@ def main(chk: C.Check, build: C.Build) -> None:
         if r.random() < 0.03 and len(tpls) > 1:
             cases.append((tpls, ("wrap", [(r.random() < 0.5, entry[1])]), limit, c[3] if len(c) > 3 else True))
             fam_wrapped += 1
-    nrand = 600 if not thorough else 15000
+    # auto-escape variants and variants whose template names share their last path component
+    n_markup = n_basename = 0
+    for c in cases[n_fixed:]:
+        x = r.random()
+        if x < 0.03:
+            cases.append(markupify(c))
+            n_markup += 1
+        elif x < 0.055:
+            cases.append(same_basename(c))
+            n_basename += 1
+    for c in CORPUS[2:9] + BLANK_CORPUS[:3]:
+        cases.append(markupify(c))
+        cases.append(same_basename(c))
+    nrand = 600 if not thorough else 8000
     for _ in range(nrand):
         cases.append(rand_case(r, thorough) + (r.random() < 0.75,))
     cases = [c if len(c) == 4 else c + (True,) for c in cases]
@@ -820,7 +868,10 @@ def main(chk: C.Check, build: C.Build) -> None:
     for (tpls, entry, limit, suppress), (outs, outs8) in zip(cases, observed):
         src = {k: to_src(v) for k, v in tpls.items()}
         names = [entry[1]] if entry[0] == "direct" else [n for _, n in entry[1]]
-        guard = all(n in tpls and starts_with_ext(tpls[n]) for n in names)
+        def lone(t: list) -> bool:
+            bn = [it[1] for it in _walk(t) if it[0] == "B"]
+            return not any(it[0] == "E" for it in _walk(t)) and len(set(bn)) == len(bn)
+        guard = all(n in tpls and (starts_with_ext(tpls[n]) or lone(tpls[n])) for n in names)
         o = agreed(outs, tpls, entry, limit)
         if o is None:
             continue
@@ -926,7 +977,7 @@ def main(chk: C.Check, build: C.Build) -> None:
         "rule": ("bounded-exhaustive family: chains t{d-1} -> ... -> t0 of depth d <= 4 over k <= 3 block names, every template "
                  "independently omitting / defining / defining-with-block.super / defining-as-required each block, the defined blocks "
                  "flat, nested in order, nested in reverse order or (3 blocks) two inside the first; the number run per (k,d) is in "
-                 "'families' (thorough: (k,d) in {1}x{2,3,4}, (2,2), (2,3), (3,2) completely, seeded samples of the rest; quick: seeded "
+                 "'families' (thorough: (k,d) in {1}x{2,3,4}, (2,2), (2,3) completely, seeded samples of the rest; quick: seeded "
                  "samples of each); 3% of them again through an include or render wrapper; plus the corpus (suite cases, rejections, "
                  "extends inside blocks, several chains in one render context), chains at the boundaries of both context limits, "
                  "seeded random chains of depth <= 8/12 with cycles, missing parents, duplicates, stray extends, endblock names and "
@@ -939,6 +990,8 @@ def main(chk: C.Check, build: C.Build) -> None:
         "families": fam_counts,
         "family_cases_also_entered_through_include_or_render": fam_wrapped,
         "random_cases": nrand,
+        "auto_escape_variants": n_markup,
+        "same_basename_variants": n_basename,
         "nested_chain_cases_checked_against_python_specification": n_nested_ok,
         "distribution": dist,
         "renders": 4 * len(items),
